@@ -172,6 +172,10 @@ class ClassV(object):
 
     def mro(self):
         """C3 linearisation over the repository base classes (external bases are ignored)."""
+        for b in self.bases:
+            if isinstance(b, Opaque) and b.name.startswith("ciderpress."):
+                # a repository class whose definition could not be interpreted: attribute lookups through it would silently skip its members
+                raise Unsupported("base class of %s could not be interpreted: %s" % (self.name, b.name[:200]))
         bases = [b for b in self.bases if isinstance(b, ClassV)]
         seqs = [list(b.mro()) for b in bases] + [list(bases)]
         res = [self]
@@ -657,7 +661,15 @@ class Interp(object):
                         fv.setter.env = env
                 c.ns[s.name] = fv
             else:
-                self.exec_stmt(s, cenv, mod)
+                try:
+                    self.exec_stmt(s, cenv, mod)
+                except Unsupported as e:
+                    # one class attribute that cannot be modelled (e.g. bound to an external helper) does not make the class opaque
+                    names = _assigned_names(s)
+                    if not names:
+                        raise
+                    for tname in names:
+                        c.ns[tname] = Opaque("%s.%s.%s[%s]" % (mod.name, st.name, tname, e))
         env.vars[st.name] = c
 
     def st_Return(self, st, env, mod):
@@ -929,6 +941,8 @@ class Interp(object):
                 return v.name
         if type(v).__name__ == "flagsobj" and name in ("c_contiguous", "f_contiguous", "contiguous", "writeable", "owndata", "aligned"):
             return bool(getattr(v, name))
+        if v is None and not name.startswith("__"):
+            raise PyRaise(mk_exc("AttributeError", "'NoneType' object has no attribute '%s'" % name))
         raise Unsupported("getattr %s on %r" % (name, type(v).__name__))
 
     def bind(self, a, obj, cls):
